@@ -1,5 +1,6 @@
 // /verif harness: calls the real rivia code in-process and prints one canonical line per request.
 mod corefn;
+mod memfs;
 mod pathfn;
 mod util;
 
@@ -31,6 +32,16 @@ fn main() {
                 };
                 writeln!(out, "{}", res.unwrap_or_else(|| "bad-op".to_string())).unwrap();
             }
+        },
+        "memfs" => {
+            for (k, _) in std::env::vars_os() {
+                std::env::remove_var(k);
+            }
+            drop(out);
+            // unbuffered: the controller needs the lines written before a hang
+            let mut o = std::io::LineWriter::new(std::io::stdout());
+            memfs::run(stdin.lock(), &mut o);
+            return;
         },
         _ => {
             eprintln!("usage: harness <pathfn|...>");
